@@ -1,12 +1,23 @@
-/-! Data format of the pseudo-register layout table emitted by `tools/translate_regs.py`. -/
+/-!
+# Vocabulary of the pseudo-register layout tables
+
+Shared by the generated table `TeakraModel/Generated/RegLayout.lean` (rewritten from
+`/repo/include/teakra/impl/register.h` by `tools/translate_regs.py` on every check run) and the
+committed snapshot `TeakraModel/Golden/RegLayout.lean`.
+-/
 namespace Teakra.Regs
 
-/-- Redirector/ArrayRedirector = `rw`; RORedirector/ArrayRORedirector = `ro`; DoubleRedirector =
-`double`; AccEProxy = `accE`; LPRedirector = `lp`. -/
+/-- The proxy of a `ProxySlot<Proxy, pos, len>`.
+`Redirector`/`ArrayRedirector` = `rw`; `RORedirector`/`ArrayRORedirector` = `ro`;
+`DoubleRedirector` = `double`; `AccEProxy` = `accE`; `LPRedirector` = `lp`. -/
 inductive ProxyKind where
   | rw | ro | double | accE | lp
   deriving DecidableEq, Repr, Inhabited
 
+/-- One `ProxySlot`.  `field`/`index`: the `RegisterState` member (array element `index`, 0 for a
+scalar); for `accE` the field is `"a"` and `index` the accumulator; for `lp` the field is `"lp"`
+and `field2` is `"bcn"` (both are cleared by a write of one); for `double`, `field2` is the second
+target; otherwise `field2 = ""`. -/
 structure Slot where
   kind : ProxyKind
   field : String
